@@ -1,4 +1,6 @@
 """C06 Yields and seasonal totals agree with the daily tables -- DESIGN 3/C06."""
+import itertools
+
 from .. import alphabets as A
 from ..driver import execute
 from ..monitors.crop import C06Yields
@@ -8,7 +10,7 @@ from ._water import scenario_facts
 PID = "C06"
 LEVEL = "model_checking"
 WITNESSES = ["harvest", "harvest_after_death", "multi_season_summary", "season_with_irrigation", "seasonal_cap_binding",
-             "season_cut_by_end_date", "pre_irrigation_day", "wpy_reduced_gain_day", "et0_below_floor_day", "co2_above_reference_season"]
+             "season_cut_by_end_date", "pre_irrigation_day", "wpy_reduced_gain_day", "et0_below_floor_day", "co2_above_reference_season", "public_tables_by_name"]
 NONTRIVIAL = ["harvest_after_death", "multi_season_summary", "seasonal_cap_binding", "season_cut_by_end_date",
               "pre_irrigation_day", "wpy_reduced_gain_day", "season_with_irrigation"]
 
@@ -55,6 +57,12 @@ def scenarios(tier, seed=0):
             yield {"kind": "spec", "spec": s2, "label": ["cut", ck, cut]}
 
 
+    # the labelled tables of the public getters, related to each other by column NAME
+    for ck, irr, off in itertools.product(["maize.2", "cotton.2", "potato.2"], ["smt_cap60", "sched", "net80", "none"], [False, True]):
+        c = A._b(crop=ck, irr=irr, win="w3" if not off else "w2", off=off, word="normal", iwc="WP" if irr == "net80" else "FC")
+        yield {"kind": "public", "spec": A.to_spec(c)}
+    for name in (["Wheat", "Maize", "localpaddy"] if tier == "quick" else names[::4]):
+        yield {"kind": "public", "spec": A.catalogue_spec(name, word="warm", irr="smt", end="2003/04/20")}
     # season numbers that do not line up with simulation years (start after the planting day: the first partial season is dropped) and
     # CO2 options, C3 crops (water productivity adjusted for CO2), several seasons
     for name in (["Wheat", "Potato", "Cotton"] if tier == "quick" else ["Wheat", "Potato", "Cotton", "Soybean", "Barley", "Tomato", "Maize"]):
@@ -69,7 +77,69 @@ def scenarios(tier, seed=0):
                 yield {"kind": "spec", "spec": spec, "label": ["co2-years", name, bool(co2), start]}
 
 
+FLUX_NAMES = "time_step_counter season_counter dap Wr z_gw surface_storage IrrDay Infl Runoff DeepPerc CR GwIn Es EsPot Tr TrPot".split()
+GROWTH_NAMES = ("time_step_counter season_counter dap gdd gdd_cum z_root canopy_cover canopy_cover_ns biomass biomass_ns "
+                "harvest_index harvest_index_adj DryYield FreshYield YieldPot").split()
+SUMMARY_NAMES = ["Season", "crop Type", "Harvest Date (YYYY/MM/DD)", "Harvest Date (Step)", "Dry yield (tonne/ha)", "Fresh yield (tonne/ha)",
+                 "Yield potential (tonne/ha)", "Seasonal irrigation (mm)"]
+
+
+def run_public(scn):
+    """The user's view: the LABELLED tables of the public getters after run_model(till_termination=True).  The summary row is related
+    to the daily tables BY COLUMN NAME (a mislabelled or re-ordered column cancels in every positional / differential comparison)."""
+    import numpy as np
+    import pandas as pd
+    from ..driver import run_plain
+    from ..runner import empty_result
+    from ._pairs import V
+
+    res = empty_result()
+    spec = scn["spec"]
+    t, a, m = run_plain(spec, timeout=120)
+    res["evals"] = 1
+    if a:
+        res["aborted"] = a
+        return res
+    flux, growth, summ = m.get_water_flux(), m.get_crop_growth(), m.get_simulation_results()
+    res["transitions"] = int(len(flux))
+    res["witness"]["public_tables_by_name"] = 1
+
+    def bad(clause, obs, exp):
+        res["violations"].append(V(clause, None, obs, exp, crop=spec["crop"]["name"], sig=[clause]))
+
+    for nm, df, want in (("water_flux", flux, FLUX_NAMES), ("crop_growth", growth, GROWTH_NAMES), ("summary", summ, SUMMARY_NAMES)):
+        if list(map(str, df.columns)) != want:
+            bad("documented-column-names", {"table": nm, "columns": list(map(str, df.columns))}, want)
+            return res
+    start = pd.Timestamp(m._clock_struct.simulation_start_date)
+    for _, r in summ.iterrows():
+        k = int(r["Season"])
+        step = int(r["Harvest Date (Step)"])
+        g = growth.iloc[step]
+        for col, gcol in (("Dry yield (tonne/ha)", "DryYield"), ("Fresh yield (tonne/ha)", "FreshYield"), ("Yield potential (tonne/ha)", "YieldPot")):
+            a_, b_ = float(r[col]), float(g[gcol])
+            if not (a_ == b_ or (a_ != a_ and b_ != b_)):
+                bad("summary-equals-named-daily-column", {"season": k, "summary": col, "value": a_}, {gcol + " at the harvest step": b_})
+        if pd.Timestamp(r["Harvest Date (YYYY/MM/DD)"]) != start + pd.Timedelta(days=step + 1):
+            bad("summary-harvest-date-follows-harvest-step", {"season": k, "date": str(r["Harvest Date (YYYY/MM/DD)"]), "step": step}, str(start + pd.Timedelta(days=step + 1)))
+        rows = flux[(flux["season_counter"] == k) & (flux["dap"] > 0)]
+        tot = float(rows["IrrDay"].sum())
+        if abs(tot - float(r["Seasonal irrigation (mm)"])) > 1e-9 * max(1.0, abs(tot)):
+            bad("summary-irrigation-equals-named-column-sum", {"season": k, "summary": float(r["Seasonal irrigation (mm)"])}, {"sum of IrrDay": tot})
+        if float(g["dap"]) <= 0 or int(g["season_counter"]) != k:
+            bad("summary-harvest-step-is-an-in-season-day", {"season": k, "step": step, "dap": float(g["dap"])}, "dap > 0 in that season")
+    # named daily columns against each other (labels vs content): dry yield = biomass/100 x adjusted harvest index; Es <= EsPot
+    gs = growth[growth["dap"] > 0]
+    if len(gs) and not np.allclose(gs["DryYield"].values, gs["biomass"].values / 100.0 * gs["harvest_index_adj"].values, rtol=0, atol=1e-12, equal_nan=True):
+        bad("named-columns-dry-yield-identity", "DryYield != biomass/100 * harvest_index_adj", "equal")
+    if (flux["Es"].values > flux["EsPot"].values + 1e-9).any() or (flux["Tr"].values > flux["TrPot"].values + 1e-9).any():
+        bad("named-columns-actual-le-potential", "Es > EsPot or Tr > TrPot by column name", "actual <= potential")
+    return res
+
+
 def run(scn):
+    if scn.get("kind") == "public":
+        return run_public(scn)
     spec = scn["spec"] if scn["kind"] == "spec" else A.to_spec(scn["config"])
     ctx = execute(spec, [C06Yields()], pid=PID, timeout=120)
     facts = scenario_facts(spec)
